@@ -153,6 +153,10 @@ class Ev:
                     name = "div<%r|%r>" % (a, b); DIVS[name] = a
                     if not (b == C): raise Inconclusive("division by %r" % (b,))
                     return Poly.atom(name)
+                if base == "Rem":
+                    if not (b == C): raise Inconclusive("remainder by %r" % (b,))
+                    name = "div<%r|%r>" % (a, b); DIVS[name] = a
+                    return a - Poly.atom(name) * C
                 if op in ("Eq", "Ne", "Lt", "Le", "Gt", "Ge"):
                     return Cond({"Eq": "==", "Ne": "!=", "Lt": "<", "Le": "<=", "Gt": ">", "Ge": ">="}[op], a - b)
             raise Inconclusive("binop %s %r %r" % (op, a, b))
